@@ -5,7 +5,7 @@
 (*                                                                         *)
 (* An abstract file is                                                     *)
 (*   [header |-> H, blocks |-> <<B1, ..., Bn>>]                            *)
-(* H  = [bbox, req, opt, prog, src, rts, rseq, rurl, zlib, rev]            *)
+(* H  = [bbox, req, opt, prog, src, rts, rseq, rurl, zlib, rev, bh]        *)
 (*      optional fields are sequences of length 0 (absent) or 1; bbox is   *)
 (*      <<>> or <<left, right, top, bottom>>; strings are symbols (small   *)
 (*      integers, 0 = the empty string) except the required features,      *)
